@@ -278,9 +278,10 @@ def gen_c09(tier, rng):
                 inp = inp[:i] + rng.choice("0123456789:-+ T.x") + inp[i:]
             exp = ""
         if rng.random() < 0.1:
-            inp = rng.choice(["", " ", "  "]) + inp + rng.choice(["", " ", "\n", "x", " x"])
-            if inp.rstrip() != inp.rstrip(" \n") or inp.endswith("x"):
-                exp = "" if not inp.endswith("x") else "REJ"
+            suffix = rng.choice(["", " ", "\n", "x", " x"])
+            inp = rng.choice(["", " ", "  "]) + inp + suffix
+            if suffix.endswith("x"):
+                exp = "REJ"            # trailing garbage after the last field
         cases.append(("parse %s %s %s %s" % (zid, hx(fmt), hx(inp), exp)).rstrip())
     # %s and years at the int64 limits
     for v in (I64_MAX, I64_MAX - 1, I64_MIN, I64_MIN + 1, 0, -1):
